@@ -5,12 +5,12 @@ ROOT = os.path.dirname(os.path.dirname(os.path.abspath(__file__)))
 hook = subprocess.run(['git', '-C', '/repo', 'log', '--format=%h', '--grep', 'verif hook'], capture_output=True, text=True).stdout.split()
 
 TIE = {
- 'C01': 'T1 (ast of the real compiler output = model compiler) + T2 three-way: real engine = model of compiled code = reference semantics on generated programs/queries',
+ 'C01': 'T1 (ast of the real compiler output = model compiler) + T2 three-way: real engine = model of compiled code = reference semantics on generated programs/queries + T2p: real engine = the queried predicate interpreted from its printed Python text by the model of Python',
  'C02': 'T3: engine.unify vs model unify vs an independent Robinson unifier on generated term pairs under active bindings',
  'C03': 'T2 at every abandonment point (close / drop / raising consumer) with the Variable weak-set hook; answers re-run',
  'C04': 'T0 table sharedStateSites = [] regenerated from engine.py; real multi-engine interleavings (alternating, generator-step zig-zag, threads) vs solo runs; T2 per solo history',
- 'C05': 'T1 + T2 on programs with cuts in transparent positions',
- 'C06': 'T1 + T2 on programs nesting ; -> \\+ with continuations; parenthesisation variants',
+ 'C05': 'T1 + T2 + T2p on programs with cuts in transparent positions',
+ 'C06': 'T1 + T2 + T2p on programs nesting ; -> \\+ with continuations (incl. generate-and-test conditions that re-enter nested blocks); parenthesisation variants',
  'C07': 'T4: operation histories over the fact store, full read-back after every step, three-way',
  'C08': 'T0 (API names) + T4: load/register/assert/clear histories, three-way',
  'C09': 'T2 on programs using call/N, once/1, findall/3, =, \\=',
@@ -27,7 +27,7 @@ TIE = {
  'C20': 'T2 with fact predicates replaced by registered Python generators (explicit/inferred/variadic, yield True/False, raising)',
 }
 PARTIAL = {
- 'C01': ' Partial: body-level (Theorem A) and program-level correctness are proved for the clause activation the generated code performs; the step to the textbook activation (fresh variable per clause variable) holds only up to renaming and is checked by the three-way tie, not proved. The flag protocol of the emitted Python text (Theorem B of the plan) is not proved; tie T1 + executing the real output stand in.',
+ 'C01': ' Partial: body-level (Theorem A) and program-level correctness are proved for the clause activation the generated code performs; the step to the textbook activation (fresh variable per clause variable) holds only up to renaming and is checked by the three-way tie, not proved. The printed Python text is covered by Theorem B (a Lean semantics of the emitted Python subset; the printed def = the compiled predicate, for the model engine without hypotheses); that this semantics is CPython\'s is checked by tie T2p, not proved.',
  'C02': ' Partial: most-generality/completeness is not proved; it is decided per case against the independent unifier.',
  'C04': ' Partial: zig-zag stepping of suspended generators and threads are outside the push-style model; sampled only.',
  'C17': ' Partial: the model counts depth in calls, CPython in frames; where the prefix is cut is not predicted. Restoring the interpreter-wide limit is runtime behaviour, checked not proved.',
